@@ -547,6 +547,8 @@ class _RecordingClient:
         self.encodings: set[str] = set()
         self._accept = accept
         self._n = 0
+        self.want_packing = False
+        self.packing: list[dict] = []
 
     def _pick(self):
         self._n += 1
@@ -559,6 +561,8 @@ class _RecordingClient:
             raise RuntimeError("C01 harness: runaway request loop (more than 400 HTTP requests for one script)")
         r = self._pick().post(url, content=content, headers=headers)
         self.sizes.append((url, r.status_code, len(r.content)))
+        if self.want_packing and (url.endswith("/init") or url.endswith("/exchange")):
+            self.packing.append(response_packing(r.content))
         enc = {k.lower(): v for k, v in r.headers.items()}.get("content-encoding")
         self.encodings.add(enc or "identity")
         return r
@@ -591,6 +595,84 @@ def capped_max(sizes, methods: list[dict]) -> int:
         if status == 200 and (k == "unary" or (k == "exch" and parts[-1] == "exchange")):
             best = max(best, n)
     return best
+
+
+def landmarks(call: dict, x: int) -> list[int]:
+    """Packing landmarks of a producer call (Semantics!Packings): position of the /init turn's IPC stream after the
+    first j steps, for every j whose step continues the stream.  Written with the library's own writers, batch for
+    batch what RpcServer puts on the wire (init logs with request id, step logs, data batches with their metadata)."""
+    from vgi_rpc.log import Message
+    from vgi_rpc.metadata import encode_metadata
+    from vgi_rpc.utils import empty_batch, new_ipc_stream
+    from io import BytesIO
+
+    m = call["m"]
+    echo = expected_echo(call.get("args", "x"), x)
+    schema = OUT_ONE if m["cols"] == "one" else OUT_ZERO
+    buf = BytesIO()
+    out: list[int] = []
+
+    def log(w, lvl, s, p, sink: bool) -> None:
+        md = Message(Level[lvl], log_text(x, s, p, echo), **log_extras(x, s, p)).add_to_metadata()
+        md["vgi_rpc.server_id"] = SERVER_ID
+        if sink:
+            md["vgi_rpc.request_id"] = "0" * 16
+        w.write_batch(empty_batch(schema), custom_metadata=encode_metadata(md))
+
+    with new_ipc_stream(buf, schema) as w:
+        if m["hdr"] == "none":              # with a header the method body's logs travel in the header stream
+            for p, lvl in enumerate(m["ilogs"], 1):
+                log(w, lvl, 0, p, True)
+        for s, st in enumerate(m["steps"], 1):
+            if st["end"] != "cont" or st["emit"] == "none":
+                break
+            p = 0
+            for lvl in st["pre"]:
+                p += 1
+                log(w, lvl, s, p, False)
+            b, md = data_batch(m["cols"], st["emit"], x, s, 0, echo)
+            if md:
+                w.write_batch(b, custom_metadata=encode_metadata(md))
+            else:
+                w.write_batch(b)
+            for lvl in st["post"]:
+                p += 1
+                log(w, lvl, s, p, False)
+            out.append(buf.tell())
+    return out
+
+
+def response_packing(content: bytes) -> dict:
+    """What one HTTP response of a stream endpoint carries: data batches, error, continuation token (observation of
+    the packing that was actually reached; not part of the judged history)."""
+    from io import BytesIO
+
+    from pyarrow import ipc
+
+    bio = BytesIO(content)
+    res = {"data": 0, "err": False, "token": False}
+    for _ in range(2):                      # header stream (if any) + output stream: the last one counts
+        try:
+            r = ipc.open_stream(bio)
+            res = {"data": 0, "err": False, "token": False}
+            while True:
+                try:
+                    b, cm = r.read_next_batch_with_custom_metadata()
+                except StopIteration:
+                    break
+                keys = dict(cm.items()) if cm is not None else {}
+                if b"vgi_rpc.log_level" in keys:
+                    if keys[b"vgi_rpc.log_level"] == b"EXCEPTION":
+                        res["err"] = True
+                elif b.num_rows == 0 and b"vgi_rpc.stream_state#b64" in keys:
+                    res["token"] = True
+                else:
+                    res["data"] += 1
+        except Exception:  # noqa: BLE001
+            break
+        if bio.tell() >= len(content):
+            break
+    return res
 
 
 # ---------------------------------------------------------------------------------------------- history recording
@@ -806,13 +888,21 @@ def _with_watchdog(fn, timeout: float):
     import signal
 
     if threading.current_thread() is threading.main_thread():
+        armed = [True]
+
         def on_alarm(signum, frame):
-            raise _Timeout()
+            if armed[0]:
+                raise _Timeout()
 
         old = signal.signal(signal.SIGALRM, on_alarm)
-        signal.setitimer(signal.ITIMER_REAL, timeout)
+        # repeating: an exception raised from a signal handler is swallowed when it lands in a destructor or a
+        # weakref callback ("Exception ignored in ..."), so the deadline keeps firing until it gets through
+        signal.setitimer(signal.ITIMER_REAL, timeout, 0.5)
         try:
-            return "ok", fn()
+            try:
+                return "ok", fn()
+            finally:
+                armed[0] = False            # from here on a late tick is a no-op
         except _Timeout:
             return "hung", None
         except BaseException as e:  # noqa: BLE001
@@ -967,6 +1057,12 @@ class HttpWorld:
             max_bytes = None
         elif cap == "large":
             max_bytes = LARGE_CAP
+        elif cap.startswith("lm"):
+            # packing landmark j (Semantics!Packings): the cap sits exactly at the framed size of the first j steps of
+            # the (single) producer call -- "lmJ" ends the /init turn with step j, "lmJ+" squeezes one more step in
+            marks = landmarks(calls[0], xs[0])
+            j = int(cap[2:].rstrip("+"))
+            max_bytes = LARGE_CAP if j > len(marks) else marks[j - 1] + (1 if cap.endswith("+") else 0)
         else:
             # tiny-but-legal: the largest hard-capped response this script produced without a cap (+ slack: sealed
             # state tokens vary by a few bytes between runs, and Arrow pads to 8) -- 1 when nothing is hard-capped
@@ -1004,6 +1100,7 @@ class HttpWorld:
                 else:
                     os.environ["VGI_HTTP_DISABLE_ZSTD"] = saved
         client = _RecordingClient(inners, accept="gzip" if comp == "gzip" else None)
+        client.want_packing = cap.startswith("lm")
         rec = Recorder()
         status, exc = "ok", None
         api = knobs["api"] if cap == "none" else "iter"          # next_with_token needs one batch per response
@@ -1026,7 +1123,7 @@ class HttpWorld:
             self.tiny[(ext, json.dumps(xs))] = max(self.tiny.get((ext, json.dumps(xs)), 0), capped_max(client.sizes, self.methods))
         return {"calls": rec.export(), "status": status, "exc": repr(exc) if exc else "", "server_died": [],
                 "cap": max_bytes, "encodings": sorted(client.encodings), "requests": len(client.sizes),
-                "externalized": sum(st.n for st in stores)}
+                "externalized": sum(st.n for st in stores), "packing": client.packing}
 
 
 # ---------------------------------------------------------------------------------------------- one behaviour, many configurations
